@@ -2806,7 +2806,14 @@ emit_member_table(arg_t *arg, asn1p_expr_t *expr, asn1c_ioc_table_and_objset_t *
 	if(C99_MODE) OUT(".tag_mode = ");
 	if((!(expr->expr_type &  ASN_CONSTR_MASK)
 	   || expr->expr_type == ASN_CONSTR_CHOICE)
-	&& expr->tag.tag_class) {
+	&& expr->tag.tag_class
+	/*
+	 * An inline ENUMERATED or unsigned INTEGER gets a descriptor of its own
+	 * (see complex_contents below) which already carries this tag.
+	 */
+	&& !(expr->expr_type == ASN_BASIC_ENUMERATED
+		|| (expr->expr_type == ASN_BASIC_INTEGER
+			&& asn1c_type_fits_long(arg, expr) == FL_FITS_UNSIGN))) {
 		if(expr->tag.tag_mode == TM_IMPLICIT)
 		OUT("-1,\t/* IMPLICIT tag at current level */\n");
 		else
